@@ -69,7 +69,46 @@ def wfReason (p : Program) : Option String :=
         if (p.bytecode.getD (a + 1) 0).toNat ≤ 1 then none
         else some s!"register-upvalue flag at {pos} is not boolean"
       else none
+    -- closure bodies: `Goto L; <label h>: body …; L: Closure h arity; (CopyLast; RegisterUpvalue i l)*`
+    -- each gives a region `[label h, L)` with its declared number of upvalues
+    let regions : List (Nat × Nat × Nat) := instrs.filterMap (fun (pos, o) =>
+      if o == op.closure then
+        let h := UInt32.ofNat (rdU32 p.bytecode (pos + 1))
+        match p.labels.find? (fun l => l.1 == h) with
+        | some (_, start) =>
+          let rec count (fuel at_ n : Nat) : Nat :=
+            match fuel with
+            | 0 => n
+            | f+1 =>
+              if p.bytecode.getD at_ 0 == op.copyLast && p.bytecode.getD (at_ + 1) 0 == op.registerUpvalue
+              then count f (at_ + 4) (n + 1) else n
+          some (start, pos, count 256 (pos + 9) 0)
+        | none => none
+      else none)
+    let enclosing (pos : Nat) : Option (Nat × Nat × Nat) :=
+      (regions.filter (fun r => r.1 ≤ pos && pos < r.2.1)).foldl (fun (best : Option (Nat × Nat × Nat)) r =>
+        match best with
+        | none => some r
+        | some b => if r.2.1 - r.1 < b.2.1 - b.1 then some r else some b) none
+    let checkUp : Nat × UInt8 → Option String := fun (pos, o) =>
+      if o == op.setUpvalue || o == op.readUpvalue then
+        match enclosing pos with
+        | none => some s!"upvalue access at {pos} outside of any closure body"
+        | some (_, _, n) =>
+          if rdU32 p.bytecode (pos + 1) < n then none
+          else some s!"upvalue index at {pos} is not below the {n} upvalue(s) its closure registers"
+      else if o == op.registerUpvalue && p.bytecode.getD (pos + 2) 0 == 0 then
+        -- a non-local capture copies an upvalue of the closure whose body creates this one
+        match enclosing pos with
+        | none => some s!"non-local capture at {pos} outside of any closure body"
+        | some (_, _, n) =>
+          if (p.bytecode.getD (pos + 1) 0).toNat < n then none
+          else some s!"non-local capture at {pos} refers to an upvalue its enclosing closure does not have"
+      else none
     match instrs.findSome? checkInstr with
+    | some r => some r
+    | none =>
+    match instrs.findSome? checkUp with
     | some r => some r
     | none =>
     match p.labels.find? (fun l => !isStart l.2) with
